@@ -2697,6 +2697,10 @@ XPathProcessorImpl::LocationPathPattern()
 
     m_expression->appendOpCode(XPathExpression::eOP_LOCATIONPATHPATTERN);
 
+    // Set when a leading '//' was consumed: it must be followed by a
+    // RelativePathPattern.
+    bool    fStepRequired = false;
+
     if(lookahead(XalanUnicode::charLeftParenthesis, 1) == true &&
                 (tokenIs(s_functionIDString) == true ||
                  tokenIs(s_functionKeyString) == true))
@@ -2734,6 +2738,8 @@ XPathProcessorImpl::LocationPathPattern()
             m_expression->appendOpCode(XPathExpression::eNODETYPE_NODE);
 
             nextToken();
+
+            fStepRequired = true;
         }
         else
         {
@@ -2746,6 +2752,14 @@ XPathProcessorImpl::LocationPathPattern()
         m_expression->updateOpCodeLength(newOpPos);
 
         nextToken();
+    }
+
+    if (fStepRequired == true &&
+        (m_token.empty() == true || tokenIs(XalanUnicode::charVerticalLine) == true))
+    {
+        // '//' alone (also written '/ /'), or as an alternative of a
+        // union, is not a pattern: there is no step to match.
+        error(XalanMessages::ExpectedNodeTest);
     }
 
     if(m_token.empty() == false)
